@@ -83,6 +83,12 @@ def _has_strings(t):
     return r
 
 
+def _plain(v):
+    if isinstance(v, tuple):
+        return all(_plain(x) for x in v)
+    return v is None or isinstance(v, (bool, int, float, str))
+
+
 def _builtin_exc(name):
     cls = getattr(_py_builtins, name, None)
     if isinstance(cls, type) and issubclass(cls, BaseException):
@@ -205,6 +211,10 @@ class Interp:
                 raise Undecided("quantified fact without a typing declaration")
             sc = self.ghost["schemas"] = Schemas(self.ex.typing)
         return sc
+
+    def hint(self, typ, term):
+        """extra ground term of type `typ` at which quantified hypotheses are instantiated"""
+        self.schemas().hints.append((typ, term))
 
     def assume(self, cond):
         if isinstance(cond, Forall):
@@ -431,6 +441,9 @@ class Interp:
     def binop(self, op, a, b):
         ka, kb = kind_of(a), kind_of(b)
         sym = isinstance(a, Sym) or isinstance(b, Sym)
+        if ka == "str" and isinstance(op, ast.Mod) and not (isinstance(a, str) and _plain(b)):
+            # "..." % x with a symbolic / object operand: only used for messages
+            return self.fresh_str("fmt")
         if not sym and not isinstance(a, (SList,)) and not isinstance(b, (SList,)):
             if isinstance(a, (PObj, SRef, Opaque)) or isinstance(b, (PObj, SRef, Opaque)):
                 raise Undecided(f"binary operator on objects {a!r} {b!r}")
@@ -1328,6 +1341,8 @@ class Interp:
             raise Undecided(f"assignment target {target.__class__.__name__}")
 
     def setslice(self, obj, sl, val):
+        if isinstance(obj, PObj) and obj.clsname() in self.ex.setitem_hooks:
+            return self.ex.setitem_hooks[obj.clsname()](self, obj, sl, val)
         _, lo, hi, step = sl
         if isinstance(obj, list) and step is None and all(x is None or isinstance(x, int) for x in (lo, hi)):
             obj[lo:hi] = self.iterate_concrete(val)
@@ -1618,10 +1633,11 @@ class Interp:
             elif hasattr(it, "iter_state"):
                 st = it.iter_state(self)
             elif isinstance(it, (list, tuple, str)):
-                raise Undecided("invariant on a concrete-length for loop")
+                st = None      # concrete shape on this path: unrolled below, the invariant is not needed
             else:
                 raise Undecided(f"for over {it!r}")
-            return self.cut_loop(s, fr, spec, key, ordinal, st)
+            if st is not None:
+                return self.cut_loop(s, fr, spec, key, ordinal, st)
         items = self.iterate_concrete(it)
         for x in items:
             self.assign(s.target, x, fr)
